@@ -50,7 +50,7 @@ def run_universe(case):
     half = kit.StubDH({a: (10.0, 10.0) for a in assets[::2]})
     alphas = [q.SingleSignalAlphaModel(dyn, signal=0.5), q.SingleSignalAlphaModel(dyn, signal=0.5, data_handler=half)]
     for qm in case['queries']:
-        t = T0 + pd.Timedelta(seconds=qm)
+        t = FAR[qm] + pd.Timedelta(days=31) if isinstance(qm, str) else T0 + pd.Timedelta(seconds=qm)
         got = dyn.get_assets(t)
         want = [a for a in assets if amap[a] is not None and amap[a] <= t]
         if len(set(got)) != len(got):
@@ -84,6 +84,8 @@ def universes(draw):
     for _ in range(draw(st.integers(1, 8))):
         base = draw(st.sampled_from([e for e in entries if e is not None and not isinstance(e, str)] or [0]))
         qs.append(base * 60 + draw(st.sampled_from([0, 0, 60, -60, 1, -1, 86400 * 400, -86400 * 400])))
+    if draw(st.sampled_from([False, False, True])):
+        qs.append(draw(st.sampled_from(['y2300', 'y2300', 'y9999'])))      # ... and a look centuries ahead
     zones = [draw(st.sampled_from([None, None, None, 'America/New_York', 'Asia/Tokyo', 'Europe/London'])) for _ in assets]
     return {'assets': assets, 'entries': entries, 'queries': qs, 'zones': zones}
 
@@ -101,8 +103,11 @@ def run_optimiser(case):
     nt = False
     prev = None
     # the same optimiser instances serve every weight dict of the case, as in a session
-    for w in [case['weights']] + list(case.get('more', [])):
+    for k_, w in enumerate([case['weights']] + list(case.get('more', []))):
         w = dict(w)
+        if k_ and case.get('new_scale') is not None:
+            opt.scale = scale = case['new_scale']        # the public scale is re-set on the live optimiser
+            cls.append('scale_changed_on_live_optimiser')
         got = fixed(T0, initial_weights=dict(w))
         if got != w or list(got) != list(w):
             raise Violation('fixed-weight optimiser changed %s into %s' % (w, got))
@@ -141,7 +146,8 @@ def optimisers(draw):
             other = draw(st.lists(st.sampled_from(kit.ASSET_POOL), min_size=1, max_size=8, unique=True))
         more.append({a: draw(_wval) for a in other})
     return {'weights': w, 'more': more, 'scale': draw(st.one_of(st.sampled_from(['default', 1.0, 2.0, 0.5, 0.0, 0]),
-                                                                  st.floats(0.01, 10).map(lambda x: float('%.4g' % x))))}
+                                                                  st.floats(0.01, 10).map(lambda x: float('%.4g' % x)))),
+            'new_scale': draw(st.sampled_from([None, None, 0.5, 3.0]))}
 
 
 def run_sess(case):
@@ -265,12 +271,23 @@ def run_static_pcm(case):
     sizer = (q.DollarWeightedCashBufferedOrderSizer(b, 'p', dh, cash_buffer_percentage=0.05) if case['long_only']
              else q.LongShortLeveragedOrderSizer(b, 'p', dh, gross_leverage=1.0))
     alpha = q.SingleSignalAlphaModel(uni, signal=1.0)
-    pcm = q.PortfolioConstructionModel(b, 'p', uni, sizer, q.FixedWeightPortfolioOptimiser(data_handler=dh),
-                                       alpha_model=alpha, data_handler=dh)
+    equal = case.get('optimiser') == 'equal'
+    optimiser = q.EqualWeightPortfolioOptimiser(data_handler=dh) if equal else q.FixedWeightPortfolioOptimiser(data_handler=dh)
+    pcm = q.PortfolioConstructionModel(b, 'p', uni, sizer, optimiser, alpha_model=alpha, data_handler=dh)
     t = kit.T_CLOSE
     for k in range(case['rebalances']):
         b.update(t)
-        orders = pcm(t, stats={'target_allocations': []})
+        st_ = {'target_allocations': []}
+        held_now = [a for a in b.get_portfolio_as_dict('p')]
+        orders = pcm(t, stats=st_)
+        # the recorded weights: what the optimiser makes of the alpha model's signals (members only); every other
+        # asset of the vector - e.g. one still held from outside the universe - gets zero
+        row = {k_: v_ for k_, v_ in st_['target_allocations'][0].items() if k_ != 'Date'}
+        want_w = {a: (1.0 / len(configured) if equal else 1.0) for a in configured}
+        for a in set(row) | set(want_w) | set(held_now):
+            if abs(row.get(a, float('nan')) - want_w.get(a, 0.0)) > 1e-12:
+                raise Violation('rebalance %d: recorded weight of %s is %r, expected %r (universe %s, held %s, %s optimiser)' % (
+                    k + 1, a, row.get(a), want_w.get(a, 0.0), configured, held_now, 'equal-weight' if equal else 'fixed-weight'))
         got = list(uni.get_assets(t))
         if got != configured:
             raise Violation('static universe yields %s after %d rebalance(s), configured %s (holdings %s)' % (
@@ -295,7 +312,8 @@ def static_pcm(draw):
             'holdings': [[i, draw(st.sampled_from([10, 100, 1000]))] for i in
                          draw(st.lists(st.integers(0, n - 1), min_size=0, max_size=3, unique=True))],
             'prices': [draw(st.floats(1, 300).map(lambda x: float('%.5g' % x))) for _ in range(n)],
-            'long_only': draw(st.booleans()), 'rebalances': draw(st.integers(1, 3))}
+            'long_only': draw(st.booleans()), 'rebalances': draw(st.integers(1, 3)),
+            'optimiser': draw(st.sampled_from(['fixed', 'equal']))}
 
 
 PARTS = [
